@@ -149,7 +149,7 @@ def raw_suite(self, name, cases, max_report=3):
     listed = {f["id"] for f in all_findings() if f["property"] == self.pid}
     for c, o in zip(cases, outs):
         self.nontrivial.add((name, c["id"]))
-        ok = o[1] == c["expect_class"] and ("expect_stdout" not in c or o[0] == c["expect_stdout"])
+        ok = o[1] == c["expect_class"] and (c.get("expect_stdout") is None or o[0] == c["expect_stdout"])
         if ok:
             continue
         fid = c.get("finding")
@@ -160,7 +160,7 @@ def raw_suite(self, name, cases, max_report=3):
             continue
         self.reported += 1
         self.v.violation("suite %s case %s: expected exit class %s%s, got %s / %r" % (
-            name, c["id"], c["expect_class"], (" and stdout %r" % c["expect_stdout"]) if "expect_stdout" in c else "",
+            name, c["id"], c["expect_class"], (" and stdout %r" % c["expect_stdout"]) if c.get("expect_stdout") is not None else "",
             o[1], o[0][-120:]),
             {"suite": name, "case": c["id"], "program": c["program"], "expected_class": c["expect_class"],
              "expected_stdout": c.get("expect_stdout"), "impl_stdout": o[0], "impl_exit_class": o[1], "impl_stderr": o[2]})
